@@ -39,6 +39,8 @@ fn main() {
             };
             let kf = Known::load();
             let cfg = RunCfg { tier, seed, root: root.clone(), cases_override: arg_val(&a, "--cases").and_then(|s| s.parse().ok()), skip_sweeps: a.iter().any(|x| x == "--no-sweeps") };
+            let pid: &'static str = Box::leak(id.clone().into_boxed_str());
+            runner::start_watchdog(pid, root.clone(), seed);
             let out = runner::run(prop.as_ref(), &kf, &cfg);
             let mut extra = serde_json::json!({});
             if out.stats.labels.keys().any(|k| k.starts_with("type:")) {
@@ -87,6 +89,7 @@ fn main() {
             let prop = props::by_id(&pid).expect("property");
             let kf = Known::load();
             let strict = a.iter().any(|x| x == "--strict");
+            runner::start_replay_guard();
             let vd = prop.check(&case);
             let mut bad = 0;
             for v in &vd.violations {
